@@ -27,7 +27,9 @@ RULE = ("generated documents: optional first heading (ATX/setext, serving phrase
 
 
 def gen_cases(run, n):
-    return [gen_md.gen_doc(run.rng) for _ in range(n)]
+    # first one document per description of the corpus of minimised past failures (multi-block ones keep their blocks), then random ones
+    from .. import gen_desc
+    return [gen_md.gen_doc(run.rng, descs=[d]) for d in gen_desc.CORPUS] + [gen_md.gen_doc(run.rng) for _ in range(n)]
 
 
 def correspondence(run):
